@@ -10,8 +10,8 @@ pub fn c15_parts() -> Vec<Part> {
         name: "hostile-solo",
         cfg_len: solo::CFG_LEN,
         tape_max: 300,
-        quick: 3_000,
-        thorough: 100_000,
+        quick: 10_000,
+        thorough: 250_000,
         max_shrink_iters: 200,
         run: run_hostile_solo,
     }]
